@@ -7,6 +7,8 @@ the four validation switches).  After EVERY call:
   * published joints == plate pose o plate-fixed coordinates, published lengths == joint-to-joint distances,
     published relative transform == inv(bottom)*top                       (1e-9 * platform size);
   * a verdict `True` (IK / FK / validate) implies every ENABLED constraint holds, recomputed from the two plate poses;
+  * every un-invert of the top plate (the mirror step inside FK) kept the joint-to-joint distances and left the top
+    plate not below the bottom plate (1e-9 * size);
   * pure queries (validate(donothing), inverseJacobian, staticForces, carryMassCalc, all getters) leave both plate
     poses unchanged on the same object (1e-12).
 Solver answers (which pose FK lands on, what a corrective action does) are environment answers: never predicted,
@@ -81,6 +83,29 @@ FORCE = (1.0, 2.0, 3.0, 4.0, 5.0, -60.0)
 def quiet():
     with contextlib.redirect_stdout(io.StringIO()):
         yield
+
+
+@contextlib.contextmanager
+def calling(sp, log):
+    """Everything a transition does to the platform happens inside this context: stdout silenced, and the private
+    un-invert helper `_fixUpsideDown` (reached from FK, also from corrective FK inside validate) observed through an
+    instance-level wrapper that is removed again before the state is snapshotted.  The wrapper changes nothing; it
+    records, for every un-invert, how much the joint-to-joint distances changed (a mirror image keeps them) and the
+    height of the top plate in the bottom frame afterwards (un-inverted means not below)."""
+    orig = sp._fixUpsideDown
+
+    def observed():
+        L0 = np.linalg.norm(np.array(sp.getTopJoints(), float) - np.array(sp.getBottomJoints(), float), axis=0)
+        orig()
+        L1 = np.linalg.norm(np.array(sp.getTopJoints(), float) - np.array(sp.getBottomJoints(), float), axis=0)
+        B, T = poses(sp)
+        log.append([float(np.abs(L1 - L0).max()), float(sps.rel(B, T)[2, 3])])
+    sp._fixUpsideDown = observed
+    try:
+        with quiet():
+            yield
+    finally:
+        sp.__dict__.pop("_fixUpsideDown", None)
 
 
 class Horizon(BaseException):
@@ -271,43 +296,45 @@ class Spec:
     # ---- transitions -------------------------------------------------------------------------------------------
     def _ik(self, k, protect):
         def f(st):
-            sp = st.sp
+            sp, log = st.sp, []
             X = self._rel_T(k)
-            with quiet():
+            with calling(sp, log):
                 goal = self.tm(sp.getBottomT().gTM() @ X)
                 r = sp.IK(top_plate_pos=goal, protect=protect)
-            return st, {"verdict": None if protect else bool(r[1]), "returned": bool(r[1])}
+            return st, {"verdict": None if protect else bool(r[1]), "returned": bool(r[1]), "uninverts": log}
         return f
 
     def _fk(self, k, mode, reverse):
         def f(st):
-            L = self._lens(k).copy()
-            with quiet():
-                r = st.sp.FK(L, fk_mode=mode, reverse=reverse) if not reverse else st.sp.FK(L, reverse=True, fk_mode=mode)
-            return st, {"verdict": bool(r[1])}
+            L, log = self._lens(k).copy(), []
+            with calling(st.sp, log):
+                r = st.sp.FK(L, fk_mode=mode, reverse=reverse)
+            return st, {"verdict": bool(r[1]), "uninverts": log}
         return f
 
     def _move(self, k):
         def f(st):
-            with quiet():
+            log = []
+            with calling(st.sp, log):
                 st.sp.move(self.tm(list(self.moves[k])))
-            return st, {"verdict": None}
+            return st, {"verdict": None, "uninverts": log}
         return f
 
     def _spin(self):
         def f(st):
-            with quiet():
+            log = []
+            with calling(st.sp, log):
                 st.sp.spinCustom(SPIN)
             st.ref.spin(SPIN)
-            return st, {"verdict": None}
+            return st, {"verdict": None, "uninverts": log}
         return f
 
     def _validate(self, donothing):
         def f(st):
-            before = poses(st.sp)
-            with quiet():
+            before, log = poses(st.sp), []
+            with calling(st.sp, log):
                 v = st.sp.validate(True) if donothing else st.sp.validate()
-            obs = {"verdict": bool(v)}
+            obs = {"verdict": bool(v), "uninverts": log}
             if donothing:
                 obs["query_drift"] = drift(before, poses(st.sp))
             return st, obs
@@ -315,9 +342,9 @@ class Spec:
 
     def _query(self, name):
         def f(st):
-            sp = st.sp
+            sp, log = st.sp, []
             before = poses(sp)
-            with quiet():
+            with calling(sp, log):
                 if name == "inverseJacobian":
                     r = sp.inverseJacobian()
                 elif name == "staticForces":
@@ -325,14 +352,16 @@ class Spec:
                 else:
                     r = sp.carryMassCalc(self.Wrench(np.array(FORCE)))[0]
             r = np.asarray(r, float)
-            return st, {"verdict": None, "query_drift": drift(before, poses(sp)), "finite": bool(np.all(np.isfinite(r)))}
+            return st, {"verdict": None, "query_drift": drift(before, poses(sp)), "finite": bool(np.all(np.isfinite(r))),
+                        "uninverts": log}
         return f
 
     def _rand(self, k):
         def f(st):
-            with scripted_uniform(RAND[k]) as n, quiet():
+            log = []
+            with scripted_uniform(RAND[k]) as n, calling(st.sp, log):
                 st.sp.randomPos(max_attempts=RAND_ATTEMPTS)
-            return st, {"verdict": None, "draws": n[0]}
+            return st, {"verdict": None, "draws": n[0], "uninverts": log}
         return f
 
     # ---- invariant ---------------------------------------------------------------------------------------------
@@ -364,6 +393,11 @@ def check_state(st, obs, switches):
             if switches[i] and not c[name][0]:
                 bad.append({"clause": "valid_but_" + name, "observed": c[name][1], "tolerance": COH * size,
                             "quantities": {"spins": ref.spins}})
+    for dL, z in obs.get("uninverts", []):
+        if not (dL <= COH * size):
+            bad.append({"clause": "uninvert_changed_lengths", "observed": dL, "tolerance": COH * size})
+        if not (z >= -COH * size):
+            bad.append({"clause": "uninvert_still_inverted", "observed": z, "tolerance": COH * size})
     if "query_drift" in obs and not (obs["query_drift"] <= PURE):
         bad.append({"clause": "query_moved_plates", "observed": obs["query_drift"], "tolerance": PURE})
     if obs.get("finite") is False:
@@ -442,6 +476,8 @@ def run(ctx):
         "relative-transform clause: the library computes it through six-vectors, whose exponential is the identity below 1e-6 rad "
         "(C03's band); when the bottom pose, the top pose or their relative rotation has an angle in (0, 1e-6] that angle times "
         "the lever |p_top - p_bottom| is added to the tolerance (zero otherwise)",
+        "un-inverts are observed through an instance-level wrapper around the private `_fixUpsideDown`, installed for the "
+        "duration of each call and removed before the state is snapshotted; it only records distances before/after",
         "which pose FK converges to and what a corrective action does are environment answers: checked, never predicted",
         "randomPos runs with max_attempts=%d under a scripted np.random.uniform (2 scripts)" % RAND_ATTEMPTS,
         "thorough tier: the from-scratch replay pass is capped at 600 histories per (geometry, subset)" if thorough else
